@@ -130,6 +130,24 @@ def run(ctx):
     cases += [{"id": i, "mode": "fingerprint", "n": nconn} for i in fp_ids]
     cr_ids = [gids[(ctx.seed + k) % len(gids)] for k in range(1 if ctx.quick else 4)]
     cases += [{"id": i, "mode": "constrand", "n": 256, "k": 2 * nidx, "b0": 0} for i in cr_ids]
+    # spec-object reuse: ApplyPreset writes the per-connection GREASE values into the spec's extension objects, so a spec
+    # applied again (next connection, or a second ApplyPreset on the same UConn) starts from the previous values
+    def is_g(v):
+        return (v >> 8) == (v & 0xff) and (v & 0xf) == 0xa
+    def share_grease(sp):
+        return any(e["kind"] == "KeyShareExtension" and any(is_g(k["Group"]) for k in e["f"]["KeyShares"]) for e in sp["exts"])
+    def no_psk(sp):
+        return not any("PreSharedKey" in e["kind"] for e in sp["exts"])
+    rids = [i for i in gids if share_grease(d["specs"][i]) and no_psk(d["specs"][i])]
+    if len(rids) < 3:
+        raise vlib.Machinery("C04: fewer than 3 parrots with a GREASE key share and no PSK extension for the reuse cases")
+    rot = ctx.seed % len(rids)
+    rids = rids[rot:] + rids[:rot]
+    reuse_modes = ["reuse-id", "reuse-fp", "reuse-custom", "twice", "twice-custom"]
+    per_mode = 2 if ctx.quick else len(rids)
+    reuse_cases = [{"id": rids[(k + m) % len(rids)], "mode": mode, "n": nconn}
+                   for m, mode in enumerate(reuse_modes) for k in range(per_mode)]
+    cases += reuse_cases
     gh = ctx.drv("ghellos", {"cases": cases}, prog="gen", timeout=1500)
     panics = [e for e in gh if e["ev"] == "Hello" and e["panic"]]
     for e in panics:
@@ -160,6 +178,10 @@ def run(ctx):
     ncan = canary(ctx, boring, gh)
     if collided < 1:
         raise vlib.Machinery("C04 vacuity: no recorded connection went through the equal-GREASE-extension repair branch of ApplyPreset")
+    for mode in reuse_modes:
+        ok = [g for g in groups if g[0]["mode"] == mode and sum(1 for e in g[1:-1] if e["sent"]) == nconn]
+        if not ok:
+            raise vlib.Machinery("C04 vacuity: no complete group of %d hellos for spec-reuse mode %s" % (nconn, mode))
     ngroups_with_ext2 = sum(1 for g in groups if sum(1 for e in g[0]["spec"]["exts"] if e["kind"] == "UtlsGREASEExtension") >= 2)
     if ngroups_with_ext2 < 3:
         raise vlib.Machinery("C04 vacuity: fewer than 3 groups with two GREASE extensions")
@@ -167,6 +189,8 @@ def run(ctx):
     # ---- reproduce each class of rejection on fresh observations before reporting it
     classes = {}
     for ev, why, k in rejected:
+        if ev["ev"] in ("Hello", "EndGroup"):      # g was renumbered for the shard: resolve the group there
+            ev = dict(ev, grp_name=shards[k][ev["g"] - 1]["grp"])
         classes.setdefault(sig_of(why), []).append((ev, why))
     for sig, items in sorted(classes.items()):
         ev, why = items[0]
@@ -176,8 +200,8 @@ def run(ctx):
         elif ev["ev"] == "Boring":
             rows = [e for e in ctx.drv("boring", {}, prog="gen", name="boring_again") if e["idx"] == ev["idx"]]
         else:
-            grp = gh[ev["g"] - 1] if ev["ev"] in ("Hello", "EndGroup") else ev
-            gidx = next(i for i, g in enumerate(groups) if g[0] is grp or g[0]["grp"] == grp["grp"])
+            gname = ev["grp_name"] if ev["ev"] in ("Hello", "EndGroup") else ev["grp"]
+            gidx = next(i for i, g in enumerate(groups) if g[0]["grp"] == gname)
             rows = regroup(ctx.drv("ghellos", {"cases": [cases[gidx]]}, prog="gen", name="gh_again"))
         rej2, _ = validate(ctx, rows, "c04_again")
         sigs2 = {sig_of(w) for _, w in rej2}
@@ -191,7 +215,7 @@ def run(ctx):
         elif ev["ev"] == "TPIds":
             replay["call"] = "tls.GREASETransportParameter{}.GetGREASEID()"
         elif ev["ev"] == "Hello":
-            replay["grp"] = gh[ev["g"] - 1]["grp"]; replay["raw_hex"] = bytes(ev["raw"]).hex(); replay["seed"] = ev["seed"]
+            replay["grp"] = ev["grp_name"]; replay["raw_hex"] = bytes(ev["raw"]).hex(); replay["seed"] = ev["seed"]
         elif ev["ev"] == "TPBody":
             replay["kinds"] = ev["kinds"]; replay["avail"] = ev["avail"]; replay["body_hex"] = bytes(ev["body"]).hex()
         ctx.finding(sig, "GREASE rule rejected by spec/Grease.tla: %s" % json.dumps(why), replay)
@@ -204,11 +228,12 @@ def run(ctx):
     cov = {"evaluations": evals, "distinct_nontrivial": len(boring) * 65536 + len(groups),
            "rule": "evaluations = 65536 seed values x %d indices of GetBoringGREASEValue (exhaustive) + %d draws each of GetGREASEID, GREASETransportParameter.ID, GetGREASEVersion + marshaled transport-parameter lists + wire hellos; distinct = (seed value, index) pairs + connection groups (spec x mode) whose freshness was judged" % (nidx, ndraw),
            "samples": samples, "grease_parrots": len(gids), "connection_groups": len(groups), "connections_per_group": nconn,
-           "fingerprinted_groups": len(fp_ids), "forced_collision_connections": 256 * len(cr_ids), "collision_branch_seen": collided,
+           "fingerprinted_groups": len(fp_ids), "spec_reuse_groups": {m: sum(1 for c in reuse_cases if c["mode"] == m) for m in reuse_modes}, "forced_collision_connections": 256 * len(cr_ids), "collision_branch_seen": collided,
            "canary_events_rejected": ncan, "exhaustive": False,
            "exhaustive_part": "GetBoringGREASEValue over all 65536 seed values for each index"}
     return "model_checking", cov, [
         "reflection dump of ClientHelloSpec is faithful (placeholders are counted from it)",
         "GetBoringGREASEValue depends only on seed[index] (other seed entries were zero in the exhaustive sweep)",
+        "spec-object reuse (one spec for successive connections, ApplyPreset twice on one UConn) is exercised sequentially on parrots with a GREASE key share and no PSK extension",
         "randomized specs carry no GREASE placeholders (generateRandomizedSpec adds none), so GREASE freshness is judged on parrots and fingerprinted specs",
         "freshness is statistical: >= 2 distinct values per kind among 64 connections (false alarm probability 16^-63 on a correct generator)"]
